@@ -182,7 +182,7 @@ const FUNCS: &[(&str, usize)] = &[
     ("ROUND", 2), ("TRUNCATE", 2), ("FLOOR", 1), ("CEIL", 1), ("CEILING", 1), ("MOD", 2), ("POWER", 2), ("POW", 2), ("SQRT", 1), ("EXP", 1), ("LN", 1), ("LOG", 1), ("LOG10", 1), ("SIGN", 1), ("PI", 0),
     ("SIN", 1), ("ATAN2", 2), ("GREATEST", 3), ("LEAST", 2), ("FORMAT", 2), ("COALESCE", 2), ("NULLIF", 2), ("IF", 3), ("YEAR", 1), ("MONTH", 1), ("DAY", 1), ("HOUR", 1), ("MINUTE", 1), ("SECOND", 1),
     ("DATEDIFF", 2), ("DATE_ADD", 3), ("DATE_SUB", 3), ("ADDDATE", 2), ("EXTRACT", 2), ("AGE", 2), ("DATETIME", 1), ("TO_NUMBER", 1), ("TO_DATE", 2), ("TO_TIMESTAMP", 2), ("TO_CHAR", 2), ("CAST", 2),
-    ("VERSION", 0), ("DATABASE", 0), ("USER", 0), ("CURRENT_DATE", 0), ("NOW", 0), ("CURTIME", 0), ("COUNT", 1), ("SUM", 1), ("AVG", 1), ("MIN", 1), ("MAX", 1), ("ST_GEOMFROMTEXT", 1), ("ST_X", 1),
+    ("VERSION", 0), ("DATABASE", 0), ("USER", 0), ("COUNT", 1), ("SUM", 1), ("AVG", 1), ("MIN", 1), ("MAX", 1), ("ST_GEOMFROMTEXT", 1), ("ST_X", 1),
     ("ST_DISTANCE", 2), ("ST_ASTEXT", 1), ("ST_AREA", 1), ("NOSUCHFUNC", 1),
 ];
 
@@ -1472,6 +1472,7 @@ impl Check for C24 {
             "build profile `verif`: overflow checks and debug assertions are ON, so an unchecked integer overflow shows up as a panic here; a plain release build would continue with the wrapped value (stated in each finding)".into(),
             "statements go through vcore::engine::exec_stmt (the dispatcher mirrored from the repo's CLI/server/sqllogictest adapters) on the worker's main thread (8 MiB stack)".into(),
             "exactness model reads the stored integer values through the storage API (Table::scan), not through the executor under test".into(),
+            "clock-dependent functions (CURRENT_DATE/TIME/TIMESTAMP, NOW, CURTIME) are not generated: the oracle must be a pure function of the case".into(),
             "watchdog: 5 s of CPU time per case inside the worker (ITIMER_PROF => hang.cpu.*), plus vcore's wall-clock watchdog (30 s, confirmed twice with 60 s => hang)".into(),
         ]
     }
@@ -1498,6 +1499,13 @@ impl Check for C24 {
         spice_world(t, &mut world, avoiding_group(cfg, "nonascii_store"));
         self.build_rest(t, cfg, world)
     }
+    fn prepare(&self, args: &vcore::Args) -> Result<(), String> {
+        // thorough: bounded libFuzzer run of the `exec` target; artifacts become replay files
+        crate::fuzzbridge::prepare_thorough(&crate::fuzzbridge::FuzzPlan { id: "C24", target: "exec", runs: 400_000, max_total_time_s: 600, timeout_s: 20 }, args)
+    }
+    fn extra_coverage(&self) -> serde_json::Map<String, serde_json::Value> {
+        crate::fuzzbridge::coverage()
+    }
     fn render(&self, c: &Case) -> String {
         let mut s = setup_sql(c).join(";\n");
         s.push_str(";\n-- wild statement:\n");
@@ -1506,6 +1514,14 @@ impl Check for C24 {
         s
     }
     fn run(&self, case: &Case, obs: &mut Obs) -> Verdict {
-        self.run_case(case, obs)
+        let v = self.run_case(case, obs);
+        // dev aid: VERIF_LOG_FAILS=<file> appends every failure (signature + case) seen by a worker
+        if let (Verdict::Fail { sig, .. }, Ok(f)) = (&v, std::env::var("VERIF_LOG_FAILS")) {
+            use std::io::Write;
+            if let Ok(mut fh) = std::fs::OpenOptions::new().create(true).append(true).open(f) {
+                let _ = writeln!(fh, "{}\t{}", sig, serde_json::to_string(case).unwrap_or_default());
+            }
+        }
+        v
     }
 }
